@@ -5,6 +5,7 @@ Numbers are exact rationals (DESIGN §4).  Core Lean only.
 -/
 import Strengths.Model.Basic
 import Strengths.Gen.Units
+import Strengths.Gen.UnitsText
 
 namespace Strengths
 open Gen
@@ -78,14 +79,41 @@ def Units.eqv (a b : Units) : Bool :=
 
 /-! ### Unit text -/
 
+/-- decimal digit `d < 10` as a character -/
+def digitChar (d : Nat) : Char := Char.ofNat (48 + d)
+
+/-- `str(n)` for a natural number, most significant digit first (fuel-structural; `fuel ≥ n` suffices) -/
+def showNatF : Nat → Nat → List Char
+  | 0, n => [digitChar (n % 10)]
+  | f + 1, n => if n < 10 then [digitChar n] else showNatF f (n / 10) ++ [digitChar (n % 10)]
+
+def showNatChars (n : Nat) : List Char := showNatF n n
+
 /-- `str(int)` -/
-def showInt (n : Int) : String := toString n
+def showIntChars (n : Int) : List Char :=
+  if n < 0 then '-' :: showNatChars n.natAbs else showNatChars n.toNat
+
+def showInt (n : Int) : String := String.ofList (showIntChars n)
+
+/-- Python `sep.join(parts)` on character lists -/
+def joinSep (sep : List Char) : List (List Char) → List Char
+  | [] => []
+  | [a] => a
+  | a :: b :: r => a ++ sep ++ joinSep sep (b :: r)
+
+/-- one entry of the list `s` built by `Units.__str__`: nothing for the skipped exponent (0), the bare
+symbol for exponent 1, symbol followed by `str(exponent)` otherwise -/
+def showPart (sym : List Char) (e : Int) : List (List Char) :=
+  if e == strSkipExp then [] else if e == strBareExp then [sym] else [sym ++ showIntChars e]
+
+/-- `Units.__str__` on character lists (key order space, time, quantity: `strKeys`) -/
+def showUnitsChars (u : Units) : List Char :=
+  joinSep strSep.toList
+    (showPart u.sys.space.toList u.dim.space ++ showPart u.sys.time.toList u.dim.time ++
+      showPart u.sys.qty.toList u.dim.qty)
 
 /-- `Units.__str__` -/
-def showUnits (u : Units) : String :=
-  let part (sym : String) (e : Int) : List String :=
-    if e == 0 then [] else if e == 1 then [sym] else [sym ++ showInt e]
-  ".".intercalate (part u.sys.space u.dim.space ++ part u.sys.time u.dim.time ++ part u.sys.qty u.dim.qty)
+def showUnits (u : Units) : String := String.ofList (showUnitsChars u)
 
 /-- Python `str.replace(a, b)` on character lists: leftmost non-overlapping occurrences.
 Structural recursion: `skip` counts the remaining characters of an occurrence already replaced. -/
@@ -98,31 +126,48 @@ def replaceAux (a b : List Char) : Nat → List Char → List Char
 
 def replaceAll (a b : List Char) (s : List Char) : List Char := replaceAux a b 0 s
 
-/-- the characters Python's `str.strip()` / `str.split()` treat as blank (ASCII subset; the other
-Unicode blanks are not generated by the correspondence check and are outside the model). -/
+/-- the characters for which Python's `str.isspace()` holds, i.e. what `str.strip()`, `str.split()`,
+`int()` and the whitespace guard of `parse_units` treat as blank -/
 def isBlank (c : Char) : Bool :=
-  c == ' ' || c == '\t' || c == '\n' || c == '\r' || c == '\x0b' || c == '\x0c'
+  c == ' ' || c == '\t' || c == '\n' || c == '\r' || c == '\x0b' || c == '\x0c' ||
+  c == '\x1c' || c == '\x1d' || c == '\x1e' || c == '\x1f' || c == '\x85' || c == '\xa0' ||
+  c == '\u1680' || (0x2000 ≤ c.toNat && c.toNat ≤ 0x200a) || c == '\u2028' || c == '\u2029' ||
+  c == '\u202f' || c == '\u205f' || c == '\u3000'
 
-def stripBlank (s : List Char) : List Char :=
-  ((s.dropWhile isBlank).reverse.dropWhile isBlank).reverse
+def stripBy (p : Char → Bool) (s : List Char) : List Char :=
+  ((s.dropWhile p).reverse.dropWhile p).reverse
+
+def stripBlank (s : List Char) : List Char := stripBy isBlank s
+
+/-- the blanks `int(text)` strips: `str.isspace()` except the ASCII separators 0x1c–0x1f
+(CPython converts non-ASCII blanks to spaces, then strips C `isspace` characters) -/
+def isIntBlank (c : Char) : Bool :=
+  isBlank c && !(c == '\x1c' || c == '\x1d' || c == '\x1e' || c == '\x1f')
+
+/-- digit loop of `int(text)`: ASCII digits, single underscores allowed between digits -/
+def pyIntGo (acc : Nat) (prevDigit : Bool) : List Char → Option Nat
+  | [] => if prevDigit then some acc else none
+  | c :: cs =>
+    if c.isDigit then pyIntGo (acc * 10 + (c.toNat - '0'.toNat)) true cs
+    else if c == '_' && prevDigit && (cs.head?.map Char.isDigit).getD false then pyIntGo acc false cs
+    else none
 
 /-- Python `int(text)` for the texts that can reach it here: optional surrounding blanks, an optional
-sign, then ASCII digits, single underscores allowed between digits. -/
-def pyInt (s : List Char) : Option Int :=
-  let s := stripBlank s
-  let (neg, body) := match s with
-    | '-' :: r => (true, r)
-    | '+' :: r => (false, r)
-    | r => (false, r)
-  let rec go (acc : Nat) (prevDigit : Bool) : List Char → Option Nat
-    | [] => if prevDigit then some acc else none
-    | c :: cs =>
-      if c.isDigit then go (acc * 10 + (c.toNat - '0'.toNat)) true cs
-      else if c == '_' && prevDigit && !cs.isEmpty && (cs.head?.map Char.isDigit).getD false then go acc false cs
-      else none
+sign, then ASCII digits, single underscores allowed between digits.  (Non-ASCII decimal digits, which
+Python's `int` also accepts, are outside the model.) -/
+def pyIntBody (neg : Bool) (body : List Char) : Option Int :=
   match body with
   | [] => none
-  | _ => (go 0 false body).map fun n => if neg then -(n : Int) else (n : Int)
+  | _ =>
+    match pyIntGo 0 false body with
+    | none => none
+    | some n => some (if neg then -(Int.ofNat n) else Int.ofNat n)
+
+def pyInt (s : List Char) : Option Int :=
+  match stripBy isIntBlank s with
+  | '-' :: r => pyIntBody true r
+  | '+' :: r => pyIntBody false r
+  | r => pyIntBody false r
 
 /-- one block of the character loop of `parse_units`: separator, symbol text, exponent text -/
 structure Block where
@@ -153,7 +198,7 @@ structure Acc where
   time : Option String := none
   qty : Option String := none
   dim : Dim := Dim.zero
-  deriving Repr
+  deriving Repr, DecidableEq
 
 /-- `addunit(field, su, se)` -/
 def Acc.add (a : Acc) (field su : String) (se : Int) : Res Acc :=
@@ -168,46 +213,89 @@ def Acc.add (a : Acc) (field su : String) (se : Int) : Res Acc :=
     else .error .badUnit
   else .error .badUnit
 
-/-- the per-block body of the second loop of `parse_units` -/
-def Acc.addBlock (a : Acc) (b : Block) : Res Acc := do
-  let e ← match (if b.exp.isEmpty then some 1 else pyInt b.exp) with
-    | some e => pure (if b.sep == '/' then -e else e)
-    | none => throw Err.badSyntax
-  let sym := String.ofList b.sym
+/-- exponent pass of `parse_units` for one block: `if b[2] == "": b[2] = "1"`, `b[2] = int(b[2])`,
+`if b[0] == "/": b[2] = -b[2]`; `none` = `int()` raises -/
+def blockExp (b : Block) : Option Int :=
+  match (if b.exp.isEmpty then pyInt puDefaultExp.toList else pyInt b.exp) with
+  | some e => some (if b.sep == puNegSep then -e else e)
+  | none => none
+
+/-- the `addunit` calls a symbol gives rise to: (field, base unit, exponent multiplier), in call order;
+error = `undefined unit` / `unexpected unit` -/
+def symContrib (sym : String) : Res (List (String × String × Int)) :=
   match unitType sym with
-  | none => throw Err.badUnit
-  | some "space" => addUnit_space.foldlM (fun a (f, m) => a.add f sym (e * m)) a
-  | some "time" => addUnit_time.foldlM (fun a (f, m) => a.add f sym (e * m)) a
-  | some "quantity" => addUnit_quantity.foldlM (fun a (f, m) => a.add f sym (e * m)) a
+  | none => .error .badUnit
+  | some "space" => .ok (addUnit_space.map fun (f, m) => (f, sym, m))
+  | some "time" => .ok (addUnit_time.map fun (f, m) => (f, sym, m))
+  | some "quantity" => .ok (addUnit_quantity.map fun (f, m) => (f, sym, m))
   | some "volume" =>
     match volBase.lookup sym with
-    | none => throw Err.badUnit
-    | some base => addUnit_volume.foldlM (fun a (f, m) => a.add f base (e * m)) a
+    | none => .error .badUnit
+    | some base => .ok (addUnit_volume.map fun (f, m) => (f, base, m))
   | some "density" =>
     match concBase.lookup sym with
-    | none => throw Err.badUnit
-    | some (q, sp) =>
-      addUnit_density.foldlM (fun a (f, m) => a.add f (if f == "space" then sp else q) (e * m)) a
-  | some _ => throw Err.badUnit
+    | none => .error .badUnit
+    | some (q, sp) => .ok (addUnit_density.map fun (f, m) => (f, if f == "space" then sp else q, m))
+  | some _ => .error .badUnit
 
-/-- `parse_units(s)` on a character list.  Note the order of the code: all exponents are read
-(`int(...)`) for every block *before* any symbol is looked up. -/
-def parseUnitsChars (s0 : List Char) : Res Units :=
-  let s := stripBlank (uSubst.foldl (fun acc (a, b) => replaceAll a.toList b.toList acc) s0)
+/-- the `addunit` calls of one block, in order, with the block's exponent `e` -/
+def Acc.addAll (a : Acc) (e : Int) : List (String × String × Int) → Res Acc
+  | [] => .ok a
+  | (f, su, m) :: r =>
+    match a.add f su (e * m) with
+    | .error x => .error x
+    | .ok a' => a'.addAll e r
+
+/-- the per-block body of the second loop of `parse_units` -/
+def Acc.addBlock (a : Acc) (b : Block) : Res Acc :=
+  match blockExp b with
+  | none => .error .badSyntax
+  | some e =>
+    match symContrib (String.ofList b.sym) with
+    | .error x => .error x
+    | .ok cs => a.addAll e cs
+
+/-- the second loop of `parse_units` -/
+def Acc.addBlocks (a : Acc) : List Block → Res Acc
+  | [] => .ok a
+  | b :: bs =>
+    match a.addBlock b with
+    | .error x => .error x
+    | .ok a' => a'.addBlocks bs
+
+/-- preprocessing of `parse_units`: the `u`→`µ` replace chain, then `strip()` -/
+def prepUnits (s0 : List Char) : List Char :=
+  stripBlank (uSubst.foldl (fun acc (a, b) => replaceAll a.toList b.toList acc) s0)
+
+/-- `parse_units` after preprocessing -/
+def parseUnitsCore (s : List Char) : Res Units :=
   if s.isEmpty then .ok ⟨Sys.default, Dim.zero⟩
-  else if s.any isBlank then .error .badSyntax   -- whitespace inside the unit text is rejected
+  else if puRejectsInnerBlank && s.any isBlank then .error .badSyntax   -- whitespace inside the unit text is rejected
   else
-    let blocks := scanBlocks s [] ⟨'.', [], []⟩ false
+    let blocks := scanBlocks s [] ⟨puFirstBlockSep, [], []⟩ false
     -- first loop: every exponent text must be readable by `int()`
     if blocks.any (fun b => !b.exp.isEmpty && (pyInt b.exp).isNone) then .error .badSyntax
     else
-      match blocks.foldlM (fun a b => a.addBlock b) ({} : Acc) with
+      match ({} : Acc).addBlocks blocks with
       | .error e => .error e
       | .ok acc =>
         let sys : Sys := ⟨acc.space.getD defaultSpace, acc.time.getD defaultTime, acc.qty.getD defaultQty⟩
         if sys.valid then .ok ⟨sys, acc.dim⟩ else .error .badUnit
 
+/-- `parse_units(s)` on a character list.  Note the order of the code: all exponents are read
+(`int(...)`) for every block *before* any symbol is looked up. -/
+def parseUnitsChars (s0 : List Char) : Res Units := parseUnitsCore (prepUnits s0)
+
 def parseUnits (s : String) : Res Units := parseUnitsChars s.toList
+
+/-- Python `str.split()` (no argument): maximal runs of non-blank characters -/
+def splitBlankAux : List Char → List Char → List (List Char)
+  | cur, [] => if cur.isEmpty then [] else [cur]
+  | cur, c :: cs =>
+    if isBlank c then (if cur.isEmpty then splitBlankAux [] cs else cur :: splitBlankAux [] cs)
+    else splitBlankAux (cur ++ [c]) cs
+
+def splitBlank (s : List Char) : List (List Char) := splitBlankAux [] s
 
 /-! ### Quantities -/
 
@@ -222,6 +310,27 @@ structure UArr where
   vs : List Rat
   u : Units
   deriving DecidableEq, Repr, Inhabited
+
+/-- `parse_unitvalue(s)`.  `pyFloat` is Python's `float(text)` (TRUSTED primitive: `none` = raises).
+`s.strip()`, `tok = s.split()`; no token: value `uvEmptyValue` with `parse_units(uvEmptyUnits)`; otherwise
+`float(tok[0])` and `parse_units(uvUnitTokJoin.join(tok[1:]))`. -/
+def parseUnitValueChars (pyFloat : List Char → Option Rat) (s : List Char) : Res UVal :=
+  match splitBlank (stripBlank s) with
+  | [] =>
+    match parseUnitsChars uvEmptyUnits.toList with
+    | .error e => .error e
+    | .ok u => .ok ⟨uvEmptyValue, u⟩
+  | t :: rest =>
+    match pyFloat t with
+    | none => .error .badSyntax
+    | some v =>
+      match parseUnitsChars (joinSep uvUnitTokJoin.toList rest) with
+      | .error e => .error e
+      | .ok u => .ok ⟨v, u⟩
+
+/-- `UnitValue.__str__`.  `pyRepr` is Python's `str(float)` (TRUSTED primitive). -/
+def showUValChars (pyRepr : Rat → List Char) (x : UVal) : List Char :=
+  pyRepr x.v ++ uvStrSep.toList ++ showUnitsChars x.u
 
 def UVal.si (x : UVal) : Rat := x.v * siFactor x.u.sys x.u.dim
 def UArr.si (x : UArr) : List Rat := x.vs.map (· * siFactor x.u.sys x.u.dim)
